@@ -200,6 +200,7 @@ inductive Outcome (α : Type) where
   /-- `assert!(min <= max)` of `f64::clamp` -/
   | clampPanic
   | outOfFuel
+deriving DecidableEq
 
 def sliderEvents (A : Arith F) (fuel : Nat) (start spanDur velocity tickDist totalDist : F)
     (spanCount : Nat) : Outcome (List (Event F)) :=
